@@ -249,7 +249,7 @@ Verdicts(r) ==
   ELSE IF v \in MustDir /\ ~IsDirT(tree, RPath(r)) THEN {"550"}
   ELSE IF v \in MustFile /\ ~IsFileT(tree, RPath(r)) THEN {"550"}
   ELSE LET ps == PermSet(r.user, VPath(r), IF v \in ReadVerbs THEN "r" ELSE "w") IN
-       {IF ok THEN (IF v \in {"stor", "appe"} /\ ~IsDirT(tree, Parent(RPath(r))) THEN "550" ELSE "")
+       {IF ok THEN (IF v \in {"stor", "appe"} /\ ~IsDirT(tree, Real(r.user, Parent(VPath(r)))) THEN "550" ELSE "")
               ELSE "550" : ok \in ps}
 
 Spawn(r, t) ==
@@ -522,8 +522,8 @@ Entries(p) == {[name |-> q[Len(q)], kind |-> KindOf(q), size |-> IF IsFileT(tree
 \* the complete listing sent on the data connection, parsed by the peer
 Listing(s, t, entries) ==
   LET r == Pre(ss[s], t)  w == r.w IN
-  /\ w.v \in ListVerbs /\ At(t)
-  /\ IF w.st = "run" /\ w.sock
+  /\ At(t)
+  /\ IF w.v \in ListVerbs /\ w.st = "run" /\ w.sock
        THEN /\ {[name |-> e.name, kind |-> e.kind, size |-> IF e.kind = "file" THEN e.size ELSE 0] : e \in entries}
                  = Entries(w.p)
             /\ Upd(s, [r EXCEPT !.w.listed = TRUE])
@@ -546,6 +546,10 @@ DataClose(s, t) ==
            ELSE IF TimedOut(r, t) THEN Upd(s, [r EXCEPT !.w.sock = FALSE, !.w.st = "dying", !.crash = TRUE])
            ELSE w.st \in {"cancel", "failed", "dying"} /\ Upd(s, [r EXCEPT !.w.sock = FALSE])
      \/ r.dc = "parked" /\ r.ph \in {"open", "drain"} /\ TeardownCause(r, t) /\ Upd(s, [r EXCEPT !.dc = "none"])
+     \/ \* PASV / EPSV with a listener already open drops a parked data connection before answering
+        /\ r.dc = "parked" /\ r.ph = "open" /\ r.h.v \in {"pasv", "epsv"} /\ r.logged /\ r.lsn # 0
+        /\ (r.h.v = "epsv" => r.h.x = "")
+        /\ Upd(s, [r EXCEPT !.dc = "none", !.cdata = FALSE])
   /\ UNCHANGED <<tree, uused, used, pool, table, srv>>
 
 \* the dispatcher's teardown: observed as the server closing the control socket
@@ -573,6 +577,7 @@ Settled(s, gated) ==
   /\ r.xd = 0
   /\ (r.h.v # "" => s \in gated \/ r.h.pc = "try")
   /\ (r.w.v # "" => \/ r.w.st = "wait"
+                    \/ r.w.st = "dying" /\ Released(r)
                     \/ r.w.st = "run" /\ ~WCanFinish(r) /\ (s \in gated \/ ~Moved(r) \/ ~Released(r))
                     \/ s \in gated)
   /\ ~(r.ph = "drain")
